@@ -90,6 +90,16 @@ CHECKS = {
     technique="TLA+ spec RpycRegistry (table with refresh times, pruning, notifications, malformed and silent input) model-checked by TLC; TLC -simulate behaviours replayed on real UDPRegistryServer / TCPRegistryServer objects with scripted fake sockets and a virtual clock, one main-loop iteration per step, comparing reply, notifications, table and loop liveness; real loopback UDP/TCP confirmation run",
     text="TLC exhausts register/unregister/query/clock/malformed input for 3 addresses x 2 mixed-case names; each simulated behaviour is executed on real registry objects over UDP and TCP receive paths: replies must list exactly the live registrations oldest-refresh-first, notifications must match membership changes exactly, 13 kinds of malformed or silent input must neither change registrations nor stop or block the main loop",
     note="virtual clock and fake listening sockets (plus one real-socket run per transport); order among equal refresh times unspecified; three genuine defects found here were repaired by fix: commits"),
+    "C16": dict(
+        spec="RpycServer", design="5/C16",
+        technique="TLA+ spec RpycServer (accept, authenticate, serve, misbehaving clients, close) model-checked by TLC; state-graph paths replayed against real ThreadedServer / ThreadPoolServer / OneShotServer over real TCP and unix sockets (with and without authenticator) plus a ForkingServer probe in a child process; every good client's per-connection counter, service instance and exported object are compared with the specification after every bad client",
+        text="TLC exhausts 2 good clients x bad clients of 8 kinds x server close; transition-cover paths are executed on the real servers: after any misbehaving client (random bytes, truncated packet, absurd length, corrupt compressed data, garbage payload, connect-and-leave, failed authentication, half a header) every good client's next call must return its own counter, a new good client must be accepted and served, no object exported to one connection is reachable from another",
+        note="real sockets and threads, conditions awaited with deadlines; stalled clients stay below the pool size"),
+    "C17": dict(
+        spec="RpycServer", design="5/C17",
+        technique="TLA+ spec RpycServer model-checked by TLC; state-graph paths replayed against real ThreadedServer / ThreadPoolServer / OneShotServer over real TCP and unix sockets (with and without authenticator) and a ForkingServer probe in a child process; oracles: EOF-not-timeout for every client after close, on_disconnect exactly once per connection, empty tracked tables, listener closed, file-descriptor and thread accounting back to the baseline",
+        text="TLC exhausts connect / call / leave (graceful or reset) / misbehave / close interleavings; transition-cover paths are executed on the real servers: after close() returns every connected client's next operation ends in EOF, never a timeout; each connection's on_disconnect ran exactly once; the server's tables are empty; descriptors and threads return to the baseline",
+        note="real sockets and threads, conditions awaited with deadlines; one genuine defect (ThreadPoolServer.close) repaired by a fix: commit, two ForkingServer defects recorded as known findings"),
 }
 NA = {}
 
